@@ -334,7 +334,7 @@ def check(prop, tier, args):
     srcs = sorted({e['src'] for e in cat if e['fn'] != 'convert'})
     if args.modules:
         srcs = [m for m in srcs if m in args.modules]
-    units = accept.accepting_units()
+    units = accept.accepting_units(modules=srcs if args.modules else None)
     items = [(m, sorted({n for o, n in units.get(m, []) if n != 'long'}), tier) for m in srcs if m in units]
     res = accept.run_modules(_task, items, 700 if tier == 'quick' else 4000)
     for m in sorted(res):
